@@ -207,9 +207,10 @@ func compilePkgs(g *lookup, pkgs []*token, optimize bool) (ins []instruction, sl
 
 }
 
-// declareFuncs enters the names of a package's functions into the table of globals before any body is compiled: a
-// function named like a builtin (println, len, ...) then hides the builtin in every body of the package, whatever the
-// order and the files of the declarations - as a reference to any other function that is declared further down does
+// declareFuncs enters the names of a package's functions, variables and constants into the table of globals before any
+// body is compiled: a package-level name spelled like a builtin (println, len, ...) then hides the builtin in every
+// body of the package, whatever the order and the files of the declarations and on a first load as on a reload - as a
+// reference to any other name that is declared further down does
 func declareFuncs(g *lookup, pkg *token) {
 	export := ""
 	for _, tok := range pkg.Tokens {
@@ -217,11 +218,24 @@ func declareFuncs(g *lookup, pkg *token) {
 			export = tok.Tokens[len(tok.Tokens)-1].Text + "." // (what expPrefix puts in front of a package-level name)
 		}
 	}
-	for _, tok := range pkg.Tokens {
-		if tok.Symbol == "function" && len(tok.Tokens) > 0 {
-			g.Index(export + tok.Tokens[0].Text)
+	var declare func(toks []*token)
+	declare = func(toks []*token) {
+		for _, tok := range toks {
+			switch {
+			case tok.Symbol == "function" && len(tok.Tokens) > 0:
+				g.Index(export + tok.Tokens[0].Text)
+			case (tok.Symbol == "var" || tok.Symbol == ":=" || tok.Symbol == "const") && len(tok.Tokens) > 0:
+				for _, name := range tok.Tokens[0].Tokens { // (functions are compiled before the variables they may use)
+					if name.Text != "_" {
+						g.Index(export + name.Text)
+					}
+				}
+			case tok.Symbol == "block": // var ( ... )
+				declare(tok.Tokens)
+			}
 		}
 	}
+	declare(pkg.Tokens)
 }
 
 func compile(g *lookup, tok *token, optimize bool) (ins []instruction, slots int, err error) {
